@@ -72,7 +72,7 @@ def families(tier, seed):
     # postconditions evaluated against the explicit-state reference semantics
     ns = 4 if tier == 'quick' else 40
     for be in (None, 'autoref'):
-        for sh in (shapes.QUICK[2], shapes.QUICK[1]):
+        for sh in (shapes.QUICK[2], shapes.QUICK[1], shapes.QUICK[4]):
             for moore, plus_one in shapes.MODES:
                 for fname, nh, ng in (('solve_streett_game', 2, 2), ('_attractor_under_assumptions', 2, 1)):
                     params = dict(moore=moore, plus_one=plus_one, n_holds=nh, n_goals=ng)
